@@ -473,6 +473,56 @@ func TestVerifC10(t *testing.T) {
 			}
 		}
 	}
+	// A certificate request whose key is not where the handler looks for it:
+	// no upload at all, the key as a plain form field, the upload under
+	// another field name, an empty upload, or a urlencoded body.  Each is
+	// malformed input on the key-loading path and must end in a refusal.
+	{
+		ck := map[string]string{"auth_cookie": w.aliceCk}
+		keyText := strongKeys[0].SSH
+		if keyText == "" {
+			keyText = verifSSHAuthorizedKey(verifUserECKey().Public())
+		}
+		for _, ct := range []string{"ssh", "x509", "x509-kubernetes", ""} {
+			base := map[string]string{"duration": "1h"}
+			if ct != "" {
+				base["type"] = ct
+			}
+			with := func(extra map[string]string) map[string]string {
+				m := map[string]string{}
+				for k, v := range base {
+					m[k] = v
+				}
+				for k, v := range extra {
+					m[k] = v
+				}
+				return m
+			}
+			shapes := []struct {
+				name string
+				q    verifReq
+			}{
+				{"no-upload", verifReq{Method: "POST", Path: "/certgen/alice", Multipart: with(nil), Cookies: ck}},
+				{"key-as-plain-field", verifReq{Method: "POST", Path: "/certgen/alice", Multipart: with(map[string]string{"pubkeyfile": keyText}), Cookies: ck}},
+				{"upload-under-other-name", verifReq{Method: "POST", Path: "/certgen/alice", Multipart: with(nil), FileField: "pubkey", FileData: keyText, Cookies: ck}},
+				{"empty-upload", verifReq{Method: "POST", Path: "/certgen/alice", Multipart: with(nil), FileField: "pubkeyfile", FileData: "", Cookies: ck}},
+				{"urlencoded-body", verifReq{Method: "POST", Path: "/certgen/alice", Form: url.Values{"type": {ct}, "duration": {"1h"}, "pubkeyfile": {keyText}}, Cookies: ck}},
+			}
+			for _, sh := range shapes {
+				resp := env.Do(sh.q.Build())
+				rep.Eval(fmt.Sprintf("misplaced-key|%s|%s|%d", ct, sh.name, resp.Code/100))
+				rep.Count("misplaced_key", 1)
+				c := map[string]interface{}{"type": ct, "shape": sh.name, "status": resp.Code}
+				if resp.Panic != "" {
+					c["panic"] = firstLines(resp.Panic, 16)
+					rep.Violate("C10/panic/misplaced-key/"+sh.name, "certificate handler panicked on a request whose key upload is missing or misplaced", c)
+				} else if resp.Code/100 == 2 {
+					rep.Violate("C10/issued-without-key/"+sh.name, "certificate request without a usable key upload answered 2xx", c)
+				}
+			}
+		}
+		rep.Floor("misplaced_key", 20)
+	}
 	for _, p := range c10Paths() {
 		rep.Floor("strong_issued_"+p, 3)
 		rep.Floor("weak_refused_"+p, 5)
